@@ -327,6 +327,11 @@ func (p *Prog) phiImplies(ph *ssa.Phi, c bool, v ssa.Value, want bool) bool {
 		if p.condAt(v, want, pb) || edgeFact(pb, ph.Block(), v, want) {
 			continue
 		}
+		// the edge carries v itself: the phi equals c there exactly when v does (the last conjunct of  a && b && v
+		// evaluated as a value, as in the case expression of a tagless switch)
+		if e == v && c == want {
+			continue
+		}
 		// the edge value is itself a flag that equals c here
 		if ph2, isPhi := e.(*ssa.Phi); isPhi && ph2 != ph && p.flagDepth < 3 {
 			p.flagDepth++
@@ -487,6 +492,10 @@ func (p *Prog) mayBeNilErr(v ssa.Value, b *ssa.BasicBlock, depth int) bool {
 		n := calleeName(x)
 		switch n {
 		case "fmt.Errorf", "errors.New", "errors.Join":
+			return false
+		}
+		// a module function that builds an error: every return hands back a non-nil error
+		if p.alwaysErr(x.Call.StaticCallee(), depth) {
 			return false
 		}
 	}
@@ -1884,4 +1893,33 @@ func (c *Prog) isOrServesOnly(f *ssa.Function, names ...string) bool {
 		return true
 	}
 	return rec(f, 0)
+}
+
+var alwaysErrMemo = map[*ssa.Function]int{} // 0 unknown, 1 yes, 2 no, 3 in progress
+
+// alwaysErr: g is a module function with a single error result that is non-nil on every return (an error constructor
+// such as  func malformed(rule []string) error { return fmt.Errorf(...) }).
+func (p *Prog) alwaysErr(g *ssa.Function, depth int) bool {
+	if g == nil || g.Blocks == nil || g.Pkg == nil || !strings.HasPrefix(g.Pkg.Pkg.Path(), modPath) || g.Signature.Results().Len() != 1 || !isErrorType(g.Signature.Results().At(0).Type()) {
+		return false
+	}
+	switch alwaysErrMemo[g] {
+	case 1:
+		return true
+	case 2, 3:
+		return false
+	}
+	alwaysErrMemo[g] = 3
+	ok := len(returnsOf(g)) > 0
+	for _, r := range returnsOf(g) {
+		if p.mayBeNilErr(r.Results[0], r.Block(), depth+1) {
+			ok = false
+		}
+	}
+	if ok {
+		alwaysErrMemo[g] = 1
+	} else {
+		alwaysErrMemo[g] = 2
+	}
+	return ok
 }
